@@ -32,7 +32,18 @@ ASSUMPTIONS = [
 POOL = ["a", "A", "a", "A", "web", "WEB", "Web", "web", "", " x", "a b",
         "ü", "Ü", "*", "a*", "b",
         # letters whose case folding differs from their lower case
-        "ß", "\u1e9e", "\u03a3", "\u03c3", "\u03c2"]
+        "ß", "\u1e9e", "\u03a3", "\u03c3", "\u03c2",
+        # any JSON string can arrive: a lone surrogate (\\ud800 escape),
+        # which no encoding can put on the event channel
+        "x\ud800"]
+
+
+def _encodable(name):
+    try:
+        name.encode('utf8')
+        return True
+    except UnicodeEncodeError:
+        return False
 
 
 def _ini(names):
@@ -161,7 +172,9 @@ def execute(case):
                                 'add %r answered ok but list is %r' % (
                                     name, d["list"])))
                             model.pop(name.lower(), None)
-                    elif name != '':
+                    elif name != '' and _encodable(name):
+                        # (a name no encoding can publish may be refused -
+                        # but then it must be absent: see coherent())
                         viols.append(Violation(
                             'C15:fresh-name-refused',
                             'add of unused name %r refused: %r' % (
